@@ -17,6 +17,27 @@ def level_shards(histories, nshards):
     return [("level", histories[i:i + k]) for i in range(0, len(histories), k)]
 
 
+_known_cache = {}
+
+
+def _all_known(mod, start, labels, tfails):
+    from vlib import core
+
+    prop = mod.PROPERTY
+    if prop not in _known_cache:
+        _known_cache[prop] = core.load_known(prop)
+    known = _known_cache[prop]
+    for f in tfails:
+        w = {"history": [start, labels], "what": f"[{start} -> {' -> '.join(labels)}] {f}", "class": mod.classify_text(f)}
+        try:
+            pat = mod.classify(w)
+        except Exception:
+            pat = None
+        if pat is None or pat not in known:
+            return False
+    return True
+
+
 def run_level_shard(mod, shard, tier, depth_limit):
     """worker side: check every state of the shard and list its successors"""
     from vlib import mgraph
@@ -54,6 +75,11 @@ def run_level_shard(mod, shard, tier, depth_limit):
                     res["violations"].append({"history": [start, list(labels) + [lab]],
                                               "what": f"[{start} -> {' -> '.join(list(labels) + [lab])}] {f}", "class": mod.classify_text(f)})
                 if m2 is not None:
+                    if tfails and getattr(mod, "PRUNE_KNOWN", False) and _all_known(mod, start, list(labels) + [lab], tfails):
+                        # the transition reproduces a recorded known finding: the model it returns is known to be wrong, its
+                        # successors would only repeat the finding in other words
+                        res["pruned_after_known_finding"] = res.get("pruned_after_known_finding", 0) + 1
+                        continue
                     res["successors"].append(((start, tuple(labels) + (lab,)), mgraph.canon(m2)))
         if len(res["samples"]) < 1:
             res["samples"].append(f"{start} -> {' -> '.join(labels) or '(start)'}")
